@@ -25,6 +25,8 @@ func init() {
 			"registry insertions are paired with the subscription counter, TriggerCountInc with initialized.Store(true); the trigger id derives from the input hash and the headers hash; Source.Start has one call site, under a detached context, with tear-down on its error edge; " +
 			"sources call Done() after every Error()/Complete(). It does not decide that the counters return to zero for every history.",
 		Mutants: []Mutant{
+			{Name: "a failed flush marks the subscription removed before unsubscribing (seeded change C13-23)", File: resolveGo, Rule: "C13-R11", Key: "Resolver.executeSubscriptionUpdate/removed-flag-write",
+				Old: "\tif err := sub.writer.Flush(); err != nil {\n\t\tsub.writeMu.Unlock()\n", New: "\tif err := sub.writer.Flush(); err != nil {\n\t\tsub.removed.Store(true)\n\t\tsub.writeMu.Unlock()\n"},
 			{Name: "trigger marked initialized after the registry lock was released (the repaired defect F19)", File: resolveGo, Rule: "C13-R10", Key: "markTriggerInitialized/initialized-set-under-registry-lock",
 				Old: "\ttrig.initialized.Store(true)\n\tr.mu.Unlock()\n\tif r.reporter != nil {", New: "\tr.mu.Unlock()\n\ttrig.initialized.Store(true)\n\tif r.reporter != nil {"},
 			{Name: "registry lock released between trigger lookup and insertion (seeded change C13-12)", File: resolveGo, Rule: "C13-R9", Key: "addSubscription/insert-in-the-critical-section-of-the-lookup",
@@ -65,6 +67,7 @@ func init() {
 
 func runC13(r *fw.Run) {
 	defer c13OwnTrigger(r)
+	defer c13RemovedFlagOnlyByTheRemover(r)
 	defer c13InitializedUnderRegistryLock(r)
 	defer c13LookupInsertAtomic(r)
 	defer c13SourceHashCoversInput(r)
@@ -1334,4 +1337,79 @@ func c13InitializedUnderRegistryLock(r *fw.Run) {
 		in.Run(nil)
 	}
 	r.Expect("C13-R10", "stores of true into trigger.initialized", n, 1)
+}
+
+// c13RemovedFlagOnlyByTheRemover (R11): subscriptionState.removed is the hand-over token of a subscription: whoever wins
+// CompareAndSwap(false,true) owns the duty to complete the subscriber (it puts the state on a toClose list, whose consumers
+// close `completed`, C13-R3). Any other write of the flag — a Store(true) "to silence the writer" — takes the token without
+// the duty: the real removal then loses its CAS, nobody closes completed, and the blocking ResolveGraphQLSubscription of
+// that client hangs until the resolver shuts down. The rule: every mutating call on the field is CompareAndSwap(false,true)
+// used as a condition whose true edge appends the subscription to a to-close list (or calls its done()).
+func c13RemovedFlagOnlyByTheRemover(r *fw.Run) {
+	p := r.Prog
+	r.Rule("C13-R11", "subscriptionState.removed is written only by CompareAndSwap(false,true) whose winner hands the subscription to a to-close list (or completes it): no Store/Swap of the flag anywhere in package resolve")
+	n := 0
+	for _, fi := range p.Funcs("resolve") {
+		info := fi.Info()
+		ord := 0
+		// CAS calls that appear as a condition, with the statement list of their true edge
+		winBody := map[*ast.CallExpr]*ast.BlockStmt{}
+		fw.WalkAll(fi.Decl.Body, func(nd ast.Node) bool {
+			if is, ok := nd.(*ast.IfStmt); ok {
+				if c, isCall := ast.Unparen(is.Cond).(*ast.CallExpr); isCall {
+					winBody[c] = is.Body
+				}
+			}
+			return true
+		})
+		fw.WalkAll(fi.Decl.Body, func(nd ast.Node) bool {
+			c, ok := nd.(*ast.CallExpr)
+			if !ok {
+				return true
+			}
+			var method string
+			for _, m := range []string{"Store", "Swap", "CompareAndSwap"} {
+				if cc, isM := fw.AtomicFieldCall(info, c, "resolve", "subscriptionState", "removed", m); isM && cc == c {
+					method = m
+				}
+			}
+			if method == "" {
+				return true
+			}
+			n++
+			ord++
+			key := fi.Name() + "/removed-flag-write#" + itoa(ord)
+			if method != "CompareAndSwap" {
+				r.Fail("C13-R11", key, p.Pos(c.Pos()), "the removed flag is written only by the remover's CompareAndSwap",
+					"removed."+method+"(…) takes the hand-over token without the duty that goes with it: the removal that follows loses its CompareAndSwap, so the subscription is never put on a to-close list, `completed` is never closed and the client's blocking ResolveGraphQLSubscription hangs until the resolver shuts down (registry and counters look clean)")
+				return true
+			}
+			a0, _ := fw.ConstVal(info, c.Args[0])
+			a1, _ := fw.ConstVal(info, c.Args[1])
+			body := winBody[c]
+			hands := false
+			if body != nil {
+				fw.WalkAll(body, func(m ast.Node) bool {
+					if call, isCall := m.(*ast.CallExpr); isCall {
+						if fw.Builtin(info, call) == "append" && len(call.Args) >= 2 {
+							if tv, okT := info.Types[call.Args[1]]; okT && fw.TypeIs(derefT(tv.Type), "resolve", "subscriptionState") {
+								hands = true
+							}
+						}
+						if fw.CallIs(info, call, "resolve", "subscriptionState.done") {
+							hands = true
+						}
+					}
+					if cl, isClose := m.(*ast.CallExpr); isClose && fw.Builtin(info, cl) == "close" && len(cl.Args) == 1 && fw.IsFieldSel(info, cl.Args[0], "resolve", "subscriptionState", "completed") {
+						hands = true
+					}
+					return true
+				})
+			}
+			r.Check(a0 == "false" && a1 == "true" && hands, "C13-R11", key, p.Pos(c.Pos()), "removed.CompareAndSwap(false,true) in "+fi.Name()+" is a condition whose winner hands the subscription over for completion",
+				"the flag is flipped but the winner does not append the subscription to a to-close list nor complete it: the subscriber is never completed")
+			return true
+		})
+	}
+	r.Expect("C13-R11", "writes of subscriptionState.removed", n, 2)
 }
